@@ -143,29 +143,30 @@ def clsDict (ld : String → Val) (pre : Path) (cut : Nat) (cls : Choices) (kvs 
     | none => .error (.type pre cut)
   | _ => .error (.type pre cut)
 
-theorem chkVal_class_dict (ld pre cut item req cls kvs) :
-    chkVal ld pre cut item (.classArg req cls) (.dict kvs) = clsDict ld pre cut cls kvs := by
+theorem chkVal_class_dict_of {ld pre cut item req imp cls kvs cfs} (h : classOf cls kvs = some cfs) :
+    chkVal ld pre cut item (.classArg req imp cls) (.dict kvs) = clsDict ld pre cut cls kvs := by
   rw [chkVal]
   unfold clsDict
+  unfold classOf at h
   cases h1 : assoc "class_path" kvs with
-  | none => rfl
+  | none => simp [h1] at h
   | some cv =>
     cases cv with
     | str c =>
       simp only []
       cases h2 : assoc c cls with
       | none => rfl
-      | some cfs =>
+      | some cfs' =>
         simp only []
-        cases chkCls ld pre cfs kvs with
+        cases chkCls ld pre cfs' kvs with
         | error e => rfl
         | ok u => cases u; rfl
-    | null => rfl
-    | bool b => rfl
-    | int i => rfl
-    | flt r => rfl
-    | list xs => rfl
-    | dict d => rfl
+    | null => simp [h1] at h
+    | bool b => simp [h1] at h
+    | int i => simp [h1] at h
+    | flt r => simp [h1] at h
+    | list xs => simp [h1] at h
+    | dict d => simp [h1] at h
 
 /-! ## an accepted level: every entry passed its check -/
 
@@ -339,13 +340,21 @@ theorem okAt_child {ld} {p q : Pos} {seg : Seg} (hp : OkAt ld p) (hc : child p s
     | str s => simp [child] at hc
     | flt r => simp [child] at hc
     | list xs => simp [child] at hc
-  | classArg req cls =>
+  | classArg req imp cls =>
     cases val with
     | dict kvs =>
       cases seg with
       | idx i => simp [child] at hc
       | key k =>
-        rw [chkVal_class_dict] at hok
+        have hsome : ∃ cfs0, classOf cls kvs = some cfs0 := by
+          cases hh : classOf cls kvs with
+          | some c0 => exact ⟨c0, rfl⟩
+          | none =>
+            exfalso
+            simp only [child] at hc
+            cases ha : assoc k kvs <;> simp [ha, hh] at hc
+        obtain ⟨cfs0, hcls0⟩ := hsome
+        rw [chkVal_class_dict_of hcls0] at hok
         obtain ⟨cfs, hcls, hck⟩ := clsDict_ok hok
         simp only [child] at hc
         cases ha : assoc k kvs with
@@ -424,7 +433,7 @@ theorem child_pos_getPath {p q : Pos} {seg : Seg} (hc : child p seg = .pos q) (r
     | str s => simp [child] at hc
     | flt r => simp [child] at hc
     | list xs => simp [child] at hc
-  | classArg req cls =>
+  | classArg req imp cls =>
     cases val with
     | dict kvs =>
       cases seg with
@@ -514,13 +523,21 @@ theorem okAt_child_undefined {ld} {p : Pos} {seg : Seg} {r : Path} {w : Val}
     | str s => simp [child] at hc
     | flt r => simp [child] at hc
     | list xs => simp [child] at hc
-  | classArg req cls =>
+  | classArg req imp cls =>
     cases val with
     | dict kvs =>
       cases seg with
       | idx i => simp [child] at hc
       | key k =>
-        rw [chkVal_class_dict] at hok
+        have hsome : ∃ cfs0, classOf cls kvs = some cfs0 := by
+          cases hh : classOf cls kvs with
+          | some c0 => exact ⟨c0, rfl⟩
+          | none =>
+            exfalso
+            simp only [child] at hc
+            cases ha : assoc k kvs <;> simp [ha, hh] at hc
+        obtain ⟨cfs0, hcls0⟩ := hsome
+        rw [chkVal_class_dict_of hcls0] at hok
         obtain ⟨cfs, hcls, hck⟩ := clsDict_ok hok
         simp only [child] at hc
         cases ha : assoc k kvs with
@@ -610,7 +627,7 @@ theorem subOf_mem : ∀ {fs : Fields} {d : String} {rq : Bool} {cs : Choices},
       exact List.mem_cons_self
     | leaf ty req dflt => simp only [subOf] at h; exact List.mem_cons_of_mem _ (subOf_mem h)
     | group w gfs => simp only [subOf] at h; exact List.mem_cons_of_mem _ (subOf_mem h)
-    | classArg req cls => simp only [subOf] at h; exact List.mem_cons_of_mem _ (subOf_mem h)
+    | classArg req imp cls => simp only [subOf] at h; exact List.mem_cons_of_mem _ (subOf_mem h)
     | listOf req it => simp only [subOf] at h; exact List.mem_cons_of_mem _ (subOf_mem h)
 
 theorem reqChoices_ok {pre cut kvs dest req c} : ∀ {cs : Choices} {cfs : Fields},
@@ -672,7 +689,7 @@ theorem reqFields_levelIn {cut} : ∀ (ks : List String) {pre : Path} {fs : Fiel
         rw [reqNode_group] at this
         exact reqFields_levelIn rest this hl
       | leaf ty req d => simp [hs] at hl
-      | classArg req cls => simp [hs] at hl
+      | classArg req imp cls => simp [hs] at hl
       | listOf req it => simp [hs] at hl
       | subcommands rq cs => simp [hs] at hl
     | sect cfs =>
@@ -798,7 +815,7 @@ theorem levelIn_getPath : ∀ (ks : List String) {fs : Fields} {kvs : KV} {fs2 :
       cases n with
       | group w gfs => simp only [hs] at hl; exact step hl
       | leaf ty req d => simp [hs] at hl
-      | classArg req cls => simp [hs] at hl
+      | classArg req imp cls => simp [hs] at hl
       | listOf req it => simp [hs] at hl
       | subcommands rq cs => simp [hs] at hl
     | sect cfs =>
@@ -828,7 +845,7 @@ theorem reqNode_required {pre cut kvs name} {n : Node} (hn : isRequiredNode n = 
     reqNode pre cut kvs name n = reqLeafLike pre cut kvs name true := by
   cases n with
   | leaf ty req d => simp only [isRequiredNode] at hn; subst hn; rw [reqNode]; rfl
-  | classArg req cls => simp only [isRequiredNode] at hn; subst hn; rw [reqNode]; rfl
+  | classArg req imp cls => simp only [isRequiredNode] at hn; subst hn; rw [reqNode]; rfl
   | listOf req it => simp only [isRequiredNode] at hn; subst hn; rw [reqNode]; rfl
   | group w gfs => simp [isRequiredNode] at hn
   | subcommands rq cs => simp [isRequiredNode] at hn
@@ -1165,7 +1182,7 @@ theorem subChoicesOk_mem {fs : Fields} : ∀ {l : Fields} {nm : String} {rq : Bo
         exact subChoicesOk_mem hok.2 h c f hcf
       | leaf ty req d => simp only [subChoicesOk] at hok; exact subChoicesOk_mem hok h c f hcf
       | group w g => simp only [subChoicesOk] at hok; exact subChoicesOk_mem hok h c f hcf
-      | classArg req cls => simp only [subChoicesOk] at hok; exact subChoicesOk_mem hok h c f hcf
+      | classArg req imp cls => simp only [subChoicesOk] at hok; exact subChoicesOk_mem hok h c f hcf
       | listOf req it => simp only [subChoicesOk] at hok; exact subChoicesOk_mem hok h c f hcf
 
 theorem noClash_choices {fs : Fields} (hn : noClash fs = true) {nm : String} {rq : Bool} {cs : Choices}
@@ -1189,7 +1206,7 @@ theorem noClash_dest {fs : Fields} {d : String} {rq : Bool} {cs : Choices} (hn :
     | subcommands rq' cs' => exact ⟨rq', cs', rfl⟩
     | leaf ty req dd => simp [h] at hn
     | group w g => simp [h] at hn
-    | classArg req cls => simp [h] at hn
+    | classArg req imp cls => simp [h] at hn
     | listOf req it => simp [h] at hn
 
 /-- changing a container value under an argument key (not a section) does not change the selection -/
@@ -1475,13 +1492,21 @@ theorem modify_prop {ld} {f : Val → Option Val} :
         | str s => simp [child] at hc
         | flt r => simp [child] at hc
         | list xs => simp [child] at hc
-      | classArg req cls =>
+      | classArg req imp cls =>
         cases val with
         | dict kvs =>
           cases seg with
           | idx i => simp [child] at hc
           | key k =>
-            rw [chkVal_class_dict] at hok
+            have hsome : ∃ cfs0, classOf cls kvs = some cfs0 := by
+              cases hh : classOf cls kvs with
+              | some c0 => exact ⟨c0, rfl⟩
+              | none =>
+                exfalso
+                simp only [child] at hc
+                cases ha : assoc k kvs <;> simp [ha, hh] at hc
+            obtain ⟨cfs0, hcls0⟩ := hsome
+            rw [chkVal_class_dict_of hcls0] at hok
             obtain ⟨cfs, hcls, hck⟩ := clsDict_ok hok
             simp only [child] at hc
             simp only [modifyAt] at hm
@@ -1512,10 +1537,12 @@ theorem modify_prop {ld} {f : Val → Option Val} :
                     intro e hee
                     rw [hpath] at hee
                     have h1' := hprop e hee
-                    rw [chkVal_class_dict]
-                    unfold clsDict
                     have hcp : assoc "class_path" (replace "init_args" v1' kvs) = assoc "class_path" kvs :=
                       assoc_replace_ne (by decide) kvs
+                    have hcls' : classOf cls (replace "init_args" v1' kvs) = some cfs := by
+                      unfold classOf; rw [hcp]; exact hcls
+                    rw [chkVal_class_dict_of hcls']
+                    unfold clsDict
                     rw [hcp]
                     unfold classOf at hcls
                     cases hcv : assoc "class_path" kvs with
@@ -1613,12 +1640,21 @@ theorem insert_end_group {ld pre cut item whole fs kvs z w}
   unfold entry
   simp [hs, hl]
 
-theorem insert_end_class {ld pre cut item req cls kvs z w}
-    (hok : chkVal ld pre cut item (.classArg req cls) (.dict kvs) = .ok ())
+theorem insert_end_class {ld pre cut item req imp cls kvs z w}
+    (hok : chkVal ld pre cut item (.classArg req imp cls) (.dict kvs) = .ok ())
+    (hsome : (classOf cls kvs).isSome = true)
     (h1 : z ≠ "class_path") (h2 : z ≠ "init_args") (h3 : z ≠ "dict_kwargs") :
-    chkVal ld pre cut item (.classArg req cls) (.dict (kvs ++ [(z, w)])) =
+    chkVal ld pre cut item (.classArg req imp cls) (.dict (kvs ++ [(z, w)])) =
       .error (.unknown (pre ++ [.key z]) pre.length) := by
-  rw [chkVal_class_dict] at hok ⊢
+  obtain ⟨cfs0, hcls0⟩ : ∃ c, classOf cls kvs = some c := by
+    cases hh : classOf cls kvs with
+    | some c => exact ⟨c, rfl⟩
+    | none => simp [hh] at hsome
+  have hcls1 : classOf cls (kvs ++ [(z, w)]) = some cfs0 := by
+    unfold classOf at hcls0 ⊢
+    rw [assoc_append_ne (Ne.symm h1)]; exact hcls0
+  rw [chkVal_class_dict_of hcls0] at hok
+  rw [chkVal_class_dict_of hcls1]
   obtain ⟨cfs, hcls, hck⟩ := clsDict_ok hok
   unfold clsDict
   rw [assoc_append_ne (Ne.symm h1)]
@@ -1675,17 +1711,17 @@ theorem insert_reported {ld fs kvs path q z w v'}
     | str s => simp at hfor
     | flt r => simp at hfor
     | list xs => simp at hfor
-  | classArg req cls =>
+  | classArg req imp cls =>
     cases qv with
     | dict qkvs =>
       simp only [Bool.and_eq_true, Bool.not_eq_true', decide_eq_false_iff_not] at hfor
-      obtain ⟨⟨⟨_, h1⟩, h2⟩, h3⟩ := hfor
+      obtain ⟨⟨⟨hcsome, h1⟩, h2⟩, h3⟩ := hfor
       simp only [insertF] at hfq
       by_cases hk : hasKey z qkvs = true
       · simp [hk] at hfq
       · simp only [hk, Bool.false_eq_true, if_false, Option.some.injEq] at hfq
         subst hfq
-        have := insert_end_class (w := w) hqok h1 h2 h3
+        have := insert_end_class (w := w) hqok hcsome h1 h2 h3
         refine ⟨[], path.length, ?_⟩
         simp only [List.append_nil]
         exact hprop _ this
@@ -1739,7 +1775,7 @@ theorem reqNode_congr {pre cut kvs kvs' nm} {nd : Node} (hA : assoc nm kvs' = as
     reqNode pre cut kvs' nm nd = reqNode pre cut kvs nm nd := by
   cases nd with
   | leaf ty req d => rw [reqNode, reqNode, hA]
-  | classArg req cls => rw [reqNode, reqNode, hA]
+  | classArg req imp cls => rw [reqNode, reqNode, hA]
   | listOf req it => rw [reqNode, reqNode, hA]
   | group w g => rw [reqNode_group, reqNode_group, hA]
   | subcommands rq cs =>
@@ -1802,7 +1838,7 @@ theorem subOf_split : ∀ {fs : Fields} {d : String} {rq : Bool} {cs : Choices},
       exact ⟨[], r, rfl, fun _ _ hm => by simp at hm⟩
     | leaf ty req dflt => simp only [subOf] at h; exact rec_case h rfl
     | group w gfs => simp only [subOf] at h; exact rec_case h rfl
-    | classArg req cls => simp only [subOf] at h; exact rec_case h rfl
+    | classArg req imp cls => simp only [subOf] at h; exact rec_case h rfl
     | listOf req it => simp only [subOf] at h; exact rec_case h rfl
 
 theorem slotOf_of_assoc {fs : Fields} {k : String} {n : Node} (h : assoc k fs = some n) : slotOf fs k = .field n := by
@@ -1812,7 +1848,7 @@ theorem chkVal_null_required {ld pre cut} {n : Node} (hn : isRequiredNode n = tr
     chkVal ld pre cut false n .null = .ok () := by
   cases n with
   | leaf ty req d => rw [chkVal]; simp [chkLeaf]
-  | classArg req cls => rw [chkVal]; simp
+  | classArg req imp cls => rw [chkVal]; simp
   | listOf req it => rw [chkVal]; simp
   | group w g => simp [isRequiredNode] at hn
   | subcommands rq cs => simp [isRequiredNode] at hn
@@ -1872,7 +1908,7 @@ theorem levelIn_modify_getPath {f : Val → Option Val} (hd : ∀ v v', f v = so
           cases n with
           | group w gfs => simp only [hs] at hl; exact step hl
           | leaf ty req d => simp [hs] at hl
-          | classArg req cls => simp [hs] at hl
+          | classArg req imp cls => simp [hs] at hl
           | listOf req it => simp [hs] at hl
           | subcommands rq cs => simp [hs] at hl
         | sect cfs =>
@@ -2025,7 +2061,7 @@ theorem req_level {ld} {f : Val → Option Val} {r : String} {n : Node} (hE : En
               · rw [reqNode_group, assoc_replace_same hak]
                 exact ih2
           | leaf ty req d => simp [hs] at hl
-          | classArg req cls => simp [hs] at hl
+          | classArg req imp cls => simp [hs] at hl
           | listOf req it => simp [hs] at hl
           | subcommands rq cs => simp [hs] at hl
         | sect cfs =>
